@@ -5,6 +5,7 @@ import ZarrsModel.Driver.C08
 import ZarrsModel.Driver.C09
 import ZarrsModel.Driver.C10
 import ZarrsModel.Driver.C11
+import ZarrsModel.Driver.C15
 import ZarrsModel.Driver.C16
 import ZarrsModel.Driver.C17
 import ZarrsModel.Driver.C18
@@ -22,6 +23,7 @@ open Zarrs Zarrs.Proto
 structure DState where
   c01 : DriverC01.St := {}
   c08 : DriverC08.St := {}
+  c15 : DriverC15.St := {}
   c16 : DriverC16.St := {}
 
 /-- new state, acceptable outcomes (`any` accepts everything), optional note -/
@@ -34,6 +36,7 @@ def dispatch (st : DState) (l : Line) : Option (DState × List String × Option 
   | some "c08" => (DriverC08.handle st.c08 l).map (fun (s, a, n) => ({ st with c08 := s }, a, n))
   | some "c09" => (DriverC09.handle l).map (fun m => (st, [m], none))
   | some "c10" => (DriverC10.handle l).map (fun m => (st, [m], none))
+  | some "c15" => (DriverC15.handle st.c15 l).map (fun (s, a, n) => ({ st with c15 := s }, a, n))
   | some "c16" => (DriverC16.handle st.c16 l).map (fun (s, a, n) => ({ st with c16 := s }, a, n))
   | some "c17" => (DriverC17.handle st.c01 l).map (fun (s, a, n) => ({ st with c01 := s }, a, n))
   | some "c18" => (DriverC18.handle l).map (fun (a, n) => (st, a, n))
